@@ -29,7 +29,13 @@ SHEET_NAMES = {
     'mixed': ['MiXed', 'camelCase'],
     'nonascii': ['Über', 'été'],
 }
-# excluded by construction (they are finding 11: ids that do not read back): digit-leading, punctuation
+# classes used only where the property owns them (C09): ids that may not read back
+SHEET_NAMES_EXTRA = {
+    'digit': ['1st', '2024'],
+    'punct': ['Sh-1', 'a+b', 'x(y)'],
+    'apostrophe': ["It's", "O'k"],
+}
+# excluded by construction elsewhere (they are finding 11): digit-leading, punctuation
 NUM_CONST = [0.0, 1.0, 2.0, 3.0, 5.0, 7.0, -1.0, -4.0, 0.5, 2.5, -1.5, 10.0, 100.0, 0.25]
 TXT_CONST = ['ab', 'x', 'Hello', 'abc', 'ZZ', 'q']
 NAME_POOL = ['TOTAL_IN', 'my_name', 'Rate.x', 'XNAME']  # must not look like a cell reference (RN1 is column RN row 1)
@@ -205,7 +211,10 @@ def write_files(spec, dirpath, sheet_order=None):
                 else:
                     ws.cell(row=r, column=c, value=f)
             else:
-                ws.cell(row=r, column=c, value=const_out(cell['v']))
+                v = const_out(cell['v'])
+                cc = ws.cell(row=r, column=c, value=v)
+                if isinstance(cell['v'], str) and cc.data_type != 's':
+                    cc.data_type = 's'  # text that looks like a formula / an error stays text
         for nm in names:
             nb, ns, r1, c1, r2, c2 = nm['rect']
             if nb != b:
@@ -290,7 +299,10 @@ def compare(spec, flat, expected, sub='wiring', skip=()):
         if not ok:
             form = forms.get(key, 'const')
             gcls = 'missing' if got == 'MISSING' else X.cls(got)
-            fails.append(('%s|%s|%s->%s' % (sub, form, X.cls(exp), gcls),
+            ecls = X.cls(exp)
+            if isinstance(exp, float) and 0 < abs(exp) < 1e-14:
+                ecls = 'num-tiny'
+            fails.append(('%s|%s|%s->%s' % (sub, form, ecls, gcls),
                           '%s: got %r, expected %r' % (node_id(spec, key), got, exp)))
     return fails
 
@@ -350,7 +362,7 @@ def features_of(spec):
         f.add('names')
     for b in spec['books']:
         for s in b['sheets']:
-            for cls, lst in SHEET_NAMES.items():
+            for cls, lst in dict(SHEET_NAMES, **SHEET_NAMES_EXTRA).items():
                 if s in lst:
                     f.add('sheetname:' + cls)
     f.add('levels:%d' % min(depth_levels(spec), 6))
@@ -369,7 +381,7 @@ def depth_levels(spec):
 # ---------------------------------------------------------------- strategy
 @st.composite
 def specs(draw, tier='quick', max_books=2, arrays=True, names=True, wholecols=True, errors=True,
-          min_cells=4, max_cells=14):
+          min_cells=4, max_cells=14, const=None, sheet_classes=None):
     nb = draw(st.integers(1, max_books))
     used_names = set()
     books = []
@@ -377,8 +389,8 @@ def specs(draw, tier='quick', max_books=2, arrays=True, names=True, wholecols=Tr
         ns = draw(st.integers(1, 2))
         sheets = []
         for _ in range(ns):
-            cls = draw(st.sampled_from(['plain', 'plain', 'space', 'mixed', 'nonascii']))
-            cands = [n for n in SHEET_NAMES[cls] if n.upper() not in {x.upper() for x in sheets}]
+            cls = draw(st.sampled_from(sheet_classes or ['plain', 'plain', 'space', 'mixed', 'nonascii']))
+            cands = [n for n in dict(SHEET_NAMES, **SHEET_NAMES_EXTRA)[cls] if n.upper() not in {x.upper() for x in sheets}]
             sheets.append(draw(st.sampled_from(cands)))
         books.append({'name': 'b%d.xlsx' % b, 'sheets': sheets})
     locs = [(b, s) for b in range(nb) for s in range(len(books[b]['sheets']))]
@@ -425,10 +437,10 @@ def specs(draw, tier='quick', max_books=2, arrays=True, names=True, wholecols=Tr
                 continue
             # no admissible operand rectangle: degrade to constants
             for k in all_keys[idx]:
-                cells.append({'at': list(k), 'v': draw(_const(errors))})
+                cells.append({'at': list(k), 'v': draw(const or _const(errors))})
             continue
         if not earlier or draw(st.integers(0, 99)) < 35:
-            cells.append({'at': list(key), 'v': draw(_const(errors))})
+            cells.append({'at': list(key), 'v': draw(const or _const(errors))})
         else:
             cells.append({'at': list(key), 'f': draw(_tree(ctx, 0))})
     for nm in spec['names']:
